@@ -28,6 +28,7 @@ struct St {
     by_src: BTreeMap<String, usize>,
     struct_errs: BTreeMap<String, usize>,
     cases: usize,
+    cases_encoder: usize,
     max_cases: usize,
     skipped_rewrite_nonminimal: usize,
     skipped_out_of_range: usize,
@@ -70,8 +71,11 @@ fn check_frame(out: &mut Out, st: &mut St, src: &str, frame: &[u8], si: Option<&
     let si_body = si.map(|s| s.body());
     let input: Vec<(&str, String)> = vec![("src", esc(src)), ("what", esc(what)), ("bytes", esc(&hex(&frame[..frame.len().min(8000)]))), ("si", esc(&si_body.as_ref().map(|b| hex(b)).unwrap_or_default()))];
     let (dec_samples, dec_end) = stream_decode(frame, si);
-    if st.cases < st.max_cases && frame.len() < 2500 {
-        st.cases += 1;
+    // separate budgets so that encoder frames (needed for the admissibility tie) are never
+    // crowded out by the other sources
+    let budget = if src == "encoder" { &mut st.cases_encoder } else { &mut st.cases };
+    if *budget < st.max_cases && frame.len() < 2500 {
+        *budget += 1;
         out.case(struct_case(frame, si_body.as_deref(), &o, &[("src", esc(src))]));
     }
     match &o.end {
@@ -184,10 +188,10 @@ fn main() {
     let kinds = all_kinds();
     let known = probe_known();
     clear_panic_loc();
-    let mut st = St { frames: 0, accepted: 0, rejected_both: 0, by_src: Default::default(), struct_errs: Default::default(), cases: 0, max_cases: scale(if thorough { 2500 } else { 300 }), skipped_rewrite_nonminimal: 0, skipped_out_of_range: 0 };
+    let mut st = St { frames: 0, accepted: 0, rejected_both: 0, by_src: Default::default(), struct_errs: Default::default(), cases: 0, cases_encoder: 0, max_cases: scale(if thorough { 2500 } else { 300 }), skipped_rewrite_nonminimal: 0, skipped_out_of_range: 0 };
 
     // ---- (1) the crate's own output over the C01 space
-    let n1 = scale(if thorough { 3000 } else { 350 });
+    let n1 = scale(if thorough { 15000 } else { 350 });
     for i in 0..n1 {
         let mut cfg = random_cfg(&mut rng, &known);
         if i % 3 != 0 { cfg.bs = rng.range(16, 96) as u16; }
@@ -205,7 +209,7 @@ fn main() {
     }
 
     // ---- (2) generator-made valid frames (files and subset streams)
-    let n2 = scale(if thorough { 4000 } else { 450 });
+    let n2 = scale(if thorough { 20000 } else { 450 });
     for i in 0..n2 {
         if i % 2 == 0 {
             let ch = match rng.below(4) { 0 => 1, 1 | 2 => 2, _ => rng.range(1, 8) as usize };
@@ -223,7 +227,7 @@ fn main() {
     }
 
     // ---- (3) checksum-valid malformed frames: one-field mutations
-    let n3 = scale(if thorough { 12000 } else { 1500 });
+    let n3 = scale(if thorough { 60000 } else { 1500 });
     let mut done = 0;
     while done < n3 {
         let g = gen_subset(&mut rng, &GenCfg { subset: true, allow_pred_overflow: false, max_unary: 60 }, 1, 40);
